@@ -46,12 +46,17 @@ PINNED = {
     "gap": "max(self.L - self.L_low, self.L_high - self.L)",
     "L_high": "if max_constraint > 0:\n    L_high += self.B * max_constraint",
     "improves": "h_value < best_value - _PRECISION",
+    "L": "error + np.sum(lambda_vec * (gamma - self.constraints.bound()))",
+    "max_constraint": "(gamma - self.constraints.bound()).max()",
+    "L_low": "L_low_mul < result.L_low",
+    "weights": "Qs[self.best_iter_]",
 }
 PINNED_LOOP = json.loads(r"""{"init": {"theta": "pd.Series(0, lagrangian.constraints.index)", "Qsum": "pd.Series(dtype='float64')", "gaps_EG": "[]", "gaps": "[]", "Qs": "[]", "last_regret_checked": "_REGRET_CHECK_START_T", "last_gap": "np.inf", "self.lambda_vecs_EG_": "pd.DataFrame()", "self.lambda_vecs_LP_": "pd.DataFrame()"}, "lambda_vec": "B * np.exp(theta) / (1 + np.exp(theta).sum())", "lambda_EG": "self.lambda_vecs_EG_.mean(axis=1)", "Qsum": ["Qsum.at[h_idx] = 0.0", "Qsum[h_idx] += 1.0"], "Q_EG": "Qsum / Qsum.sum()", "eta": "self.eta0 / B", "skipLP": "t == 0 or not self.run_linprog_step", "regretDue": "t >= last_regret_checked * _REGRET_CHECK_INCREASE_T", "shrinkDue": "best_gap > last_gap * _SHRINK_REGRET", "shrink": "eta *= _SHRINK_ETA", "theta": "theta += eta * (gamma - self.constraints.bound())", "last_iter": "len(Qs) - 1", "evalBreak": "result.gap() > nu + _PRECISION", "_eval": ["error = self.errors[Q.index].dot(Q)", "gamma = self.gammas[Q.index].dot(Q)", "if self.opt_lambda:\n    lambda_vec = self.constraints.project_lambda(lambda_vec)"], "h_value": "h_error + h_gamma.dot(lambda_vec)", "best_h": ["values = self.errors + self.gammas.transpose().dot(lambda_vec)", "best_idx = values.idxmin()", "best_value = values[best_idx]", "best_idx = -1", "best_value = np.inf"]}""")
 PINNED_LP = json.loads(r"""{"c": "np.concatenate((self.errors, [self.B]))", "A_ub": "np.concatenate((self.gammas.sub(self.constraints.bound(), axis=0), -np.ones((n_constraints, 1))), axis=1)", "b_ub": "np.zeros(n_constraints)", "A_eq": "np.concatenate((np.ones((1, n_hs)), np.zeros((1, 1))), axis=1)", "b_eq": "np.ones(1)", "dual_c": "np.concatenate((b_ub, -b_eq))", "dual_A_ub": "np.concatenate((-A_ub.transpose(), A_eq.transpose()), axis=1)", "dual_bounds": "[(None, None) if i == n_constraints else (0, None) for i in range(n_constraints + 1)]", "cache": "self.last_linprog_n_hs == n_hs"}""")
-PINNED_SHA = {"EGGen.lean": "2ac31df88449c15f2f3119914e841d4c389aeff5",
-              "EGLoopGen.lean": "f223b9297f2337250166b7cbcbb00b6841e2718e",
-              "LinProgGen.lean": "fd41ac5a5f6dad60aee18a7c7aae8b5cb7bed893"}
+PINNED_SHA = {"EGGen.lean": "a3796ff4c7f3dd1ba82932ccd1e3207c7ae9f8e4",
+              "EGLoopGen.lean": "3bf997318ec1fca48a0127b9d5ae8395f57cfb8c",
+              "LinProgGen.lean": "7dd187a6194175faa7fab754d1ba4cdaf9927a30",
+              "ProjectLambdaSrc.lean": "da3c0da380a16d666e93922128cb2caf1fe1347b"}
 _LIFTED = {}
 _RP = {}
 
